@@ -203,14 +203,29 @@ def c01(tier, seed):
         t3, r3 = odd_names_leg("C01", tier, seed)
         t4 = session("c01-multipsk", PskMode="all", Variants=["tr"], PatSet=["N", "K", "NN", "XX", "IK", "X1X1", "KX1", "I1K1"])
         r4 = replay("C01", t4, seed, 1)
+        t5 = session("c01-after-failure", FaultBudget=1, FaultKinds=["wbuf", "routbuf", "ralt"], PubLens=[32], InitPads=[False],
+                     Variants=["tr"], TrafficMode="short", PatSet=["X1N", "X1K", "X1K1", "X1X", "XX", "IK"])
+        r5 = replay("C01", t5, seed, 1, threads=14)
+        t6 = session("c01-late-psk", PskMode="only", LatePsk=True, PubLens=[32], InitPads=[False], Variants=["tr"],
+                     TrafficMode="short", PatSet=["NN", "XX", "IK", "X1X1"])
+        r6 = replay("C01", t6, seed, 1, threads=14)
     else:
         t4 = r4 = None
+        t5 = session("c01-after-failure", FaultBudget=1, FaultKinds=["wbuf", "routbuf", "ralt"], PubLens=[32], InitPads=[False],
+                     Variants=["tr"], TrafficMode="short")
+        r5 = replay("C01", t5, seed, 1, threads=14)
+        t6 = session("c01-late-psk", PskMode="only", LatePsk=True, PubLens=[32], InitPads=[False], Variants=["tr"],
+                     TrafficMode="short")
+        r6 = replay("C01", t6, seed, 1, threads=14)
         t = session("c01-honest", PskMode="all", Profiles=["small", "zero"])
         r = replay("C01", t, seed, 0, threads=14)
         t2 = session("c01-honest-ring", PskMode="all", PubLens=[32])
         r2 = replay("C01", t2, seed, 2, backends="mix", threads=14)
         t3, r3 = odd_names_leg("C01", tier, seed)
-    return merge("model_checking", [x for x in [t, t2, t3, t4] if x], [x for x in [r, r2, r3, r4] if x], RULE_D1 +
+    return merge("model_checking", [x for x in [t, t2, t3, t4, t5, t6] if x], [x for x in [r, r2, r3, r4, r5, r6] if x], RULE_D1 +
+                 "the messages must be the specification's whatever happened before: runs with one failed call (undersized "
+                 "buffer, altered message) before each step and its retry, and runs in which a psk is installed by set_psk "
+                 "only when it is needed; "
                  "a third run names the protocol with a non-canonical spelling of its psk numerals (the verbatim name is hashed); "
                  "a second run assigns ring-backed resolvers to the endpoints (fallback(ring,default), fallback(default,ring), "
                  "default in every mix), since a conforming endpoint must interoperate whatever its backend; "
@@ -227,7 +242,16 @@ def c02(tier, seed):
     else:
         t = session("c02-honest", PskMode="all", Profiles=["zero", "small", "tag", "mid", "max"], BufModes=["big", "exact"])
         r = replay("C02", t, seed, 3, threads=14)
-    res = merge("model_checking", [t], [r], RULE_D1 +
+    t_b = session("c02-retry", FaultBudget=1, FaultKinds=["wbuf", "routbuf"], PubLens=[32], InitPads=[False], Variants=["tr"],
+                  TrafficMode="short", PatSet=(["X1N", "X1K", "X1K1", "X1X", "XX", "IK", "NN"] if tier == "quick" else BASE))
+    r_b = replay("C02", t_b, seed, 1, threads=14)
+    t_c = session("c02-backends", PskMode="single" if tier == "quick" else "all", PubLens=[32], InitPads=[True, False], Variants=["tr"],
+                  Profiles=["mid"], TrafficMode="short", PatSet=(["N", "NN", "XX", "IK", "X1X1", "KK"] if tier == "quick" else BASE))
+    r_c = replay("C02", t_c, seed, 1, threads=14, backends="mix-sample" if tier == "quick" else "mix")
+    res = merge("model_checking", [t, t_b, t_c], [r, r_b, r_c], RULE_D1 +
+                 "an honest exchange stays honest when a caller first offers an undersized buffer and then retries (one such "
+                 "call before every step), and when the two endpoints use different crypto backends (default / ring-backed "
+                 "fallback pairs); "
                  "here: honest sessions with payload profiles zero/tag-sized/maximum-fit (65535 minus the model-computed "
                  "overhead), stateful and stateless, mixed-direction transport traffic; TLC checks Completes, Agreement, "
                  "Delivery, RawSplitAgrees on every state", ASSUME_SYMBOLIC)
@@ -400,6 +424,14 @@ def c17(tier, seed):
                  "checks RemoteStaticCorrect on every state", ASSUME_SYMBOLIC)
 
 
+def c03_after_failure(tier, seed):
+    """One failed call earlier in the session must not weaken the rejection of an altered message."""
+    t = session("c03-after-failure", FaultBudget=1, FaultKinds=["wbuf", "routbuf", "turn"], TamperBudget=1, PubLens=[32],
+                InitPads=[False], Variants=["tr"], TrafficMode="short",
+                PatSet=(["X1N", "X1X", "XN", "XX"] if tier == "quick" else ["X1N", "X1K", "X1K1", "X1X", "XN", "XK", "XX", "XK1", "IK", "NN"]))
+    return t, replay("C03", t, seed, 1, threads=14)
+
+
 def c03(tier, seed):
     if tier == "quick":
         t = session("c03-tamper", TamperBudget=1, PubLens=[32], InitPads=[False], Variants=["tr"], TrafficMode="short")
@@ -423,7 +455,11 @@ def c03(tier, seed):
                         Variants=["tr"], TrafficMode="short")
             rl.append(replay("C03", t, seed, 2, threads=14))
             tl.append(t)
+    t9, r9 = c03_after_failure(tier, seed)
+    tl, rl = tl + [t9], rl + [r9]
     return merge("model_checking", tl, rl, RULE_D1 +
+                 "one run injects a FAILED call (undersized buffer, out-of-turn call) before the alteration: a rejected call "
+                 "earlier in the session must not weaken what is rejected later; "
                  "here: the adversary alters one handshake message in transit (each field flipped at either end or replaced "
                  "by junk, truncation at/inside every field, extension, substitution by an earlier message) and both "
                  "parties continue as far as they can; TLC checks NoSilentCompletion and EncryptedFieldRejectedAtOnce and "
@@ -434,6 +470,8 @@ def transport(name, timeout=3000, **over):
     c = dict(FullRollback=True, OneWayT=False, Stateful=True, NonceMode="lo", MaxSend=2, Depth=4, BadBudget=1,
              SetBudget=1, RekeyBudget=0, SmallBufs=True, BigBudget=0, PayBase=70, EmitEdges=True)
     c.update(over)
+    # explicit key / counter changes are followed by a probe round trip (the edge cover alone compares counters only)
+    c.setdefault("Probes", c["RekeyBudget"] > 0 or c["SetBudget"] > 0)
     return run_tlc("MC_Transport", c, invariants=["InvT"], name=name, timeout=timeout, view="ViewT",
                    action_constraint="EmitEdge")
 
@@ -825,6 +863,9 @@ def c08(tier, seed):
         t4 = session("c08-multipsk", Mismatches=["psk", "psk_max"], PskMode="all", PubLens=[32], InitPads=[True, False],
                      Variants=["tr"], TrafficMode="short", PatSet=["N", "NN", "XX", "IK", "X1X1"])
         r4 = replay("C08", t4, seed, 1, threads=14)
+        t5 = session("c08-name", Mismatches=["name"], PskMode="only", PubLens=[32], InitPads=[True], Variants=["tr"],
+                     TrafficMode="short", PatSet=["N", "NN", "XX", "IK", "X1X1", "KK", "NK1"])
+        r5 = replay("C08", t5, seed, 1, threads=14)
     else:
         t4 = session("c08-multipsk", Mismatches=["psk", "psk_max"], PskMode="all", PubLens=[32], Variants=["tr"],
                      TrafficMode="short")
@@ -837,7 +878,12 @@ def c08(tier, seed):
         t2 = session("c08-overwrite", OverwritePsk=True, PskMode="only", PubLens=[32], InitPads=[False], Variants=["tr"],
                      TrafficMode="short")
         r2 = replay("C08", t2, seed, 1, threads=14)
-    res = merge("model_checking", [t, t2, t3, t4], [r, r2, r3, r4], RULE_D1 +
+        t5 = session("c08-name", Mismatches=["name"], PskMode="all", PubLens=[32], InitPads=[True], Variants=["tr", "sl"],
+                     TrafficMode="short")
+        r5 = replay("C08", t5, seed, 1, threads=14)
+    res = merge("model_checking", [t, t2, t3, t4, t5], [r, r2, r3, r4, r5], RULE_D1 +
+                 "the protocol NAME: the two parties spell the same choice differently (psk3 / psk03 - both parse, the strings "
+                 "differ, so must the transcripts: no channel); "
                  "several PSKs of which the lowest or the highest differs; "
                  "a PSK that one side simply does not hold (never replaced by a default); "
                  "also: set_psk on an already filled slot at any time (wrong key later replaced by the right one, and the "
